@@ -13,6 +13,11 @@ CHECKS = {
   'bounds': {'quick': 'robustness: 8 text frames (the free part sits in the Ops, Automaton, States, Final States line, on a line of its own, at the start of a transition, inside a transition, between a rule symbol and its arrow) x K in {3,5,6,8} free characters from a 16-character alphabet (all six white-space characters, parentheses, comma, minus, greater-than, colon, a digit, two declared names, an undeclared letter): 12, 20, 24 and 32 free bits per query; round trip and load/dump: 2 states x 2 symbols (12 bits)', 'thorough': 'robustness: the 8 frames x K in {3,5,6,8,9,10} (up to 40 free bits); round trip additionally 2 states x 3 symbols incl. a binary one (15 bits)'},
   'outside': 'see explanation: round trip, serializer, loaders, numbers after a colon, bytes outside the alphabet, longer free parts',
   'harnesses': [
+    # "symbolic" load/dump mode of the bottom-up BDD encoding (known finding C13-1)
+    {'name': 'symdump', 'src': 'harness/C13/symdump.cc', 'tus': ['timbuk_parser-nobison', 'timbuk_serializer', 'bdd_bu_tree_aut', 'bdd_bu_tree_aut_core', 'symbolic_tree_aut_base_core', 'sym_var_asgn', 'symbolic', 'util', 'convert'],
+     'configs': {'quick': [{'NST': 2, 'LEAFMASK': '0xfful', 'UNMASK': '0x0ul'}, {'NST': 2, 'LEAFMASK': '0x55ul', 'UNMASK': '0x9999ul'}, {'NST': 2, 'LEAFMASK': '0x0ful', 'UNMASK': '0x00fful', 'VIA_TEXT': 1}],
+                 'thorough': [{'NST': 2, 'LEAFMASK': '0xfful', 'UNMASK': '0x0ul'}, {'NST': 2, 'LEAFMASK': '0x55ul', 'UNMASK': '0x9999ul'}, {'NST': 2, 'LEAFMASK': '0x0ful', 'UNMASK': '0x00fful', 'VIA_TEXT': 1}, {'NST': 2, 'LEAFMASK': '0xfful', 'UNMASK': '0xfffful', '_time': 2500}]},
+     'selftest_config': {'NST': 2, 'LEAFMASK': '0xfful', 'UNMASK': '0x0ul'}, 'selftests': ['VS_SELFTEST_1']},
     {'name': 'parse', 'src': 'harness/C13/parse.cc', 'tus': ['timbuk_parser-nobison'],
      'configs': {'quick': [P(k, h) for k in (3, 5, 6, 8) for h in range(8)], 'thorough': [P(k, h, _time=2500, _mem_gb=24) for k in (3, 5, 6, 8, 9, 10) for h in range(8)]},
      'selftest_config': P(4, 0), 'selftests': ['VS_SELFTEST_1']},
